@@ -35,7 +35,7 @@ theorem step_call_blocked (g : G) (i : Nat) (pc : Pc) (h : g.thr[i]? = some pc) 
 theorem step_call_lock (g : G) (i : Nat) (s g' : Nat) (as : List Nat) (h : g.thr[i]? = some (.joinFiltered s g' as))
     (hb : ¬ blocked g (.joinFiltered s g' as)) :
     step g (.call i) =
-      { g with st := touchGroup g.st (s, g'), locks := set g.locks (s, g') (as, []),
+      { g with st := touchGroup g.st (s, g'), locks := set g.locks (s, g') (i, as, []),
                thr := g.thr.set i (.joinIn s g' as as.eraseDups) } := by
   unfold blocked at hb
   simp only [step, h, hb, Bool.false_eq_true, ↓reduceIte]
@@ -46,7 +46,7 @@ theorem step_call_one (g : G) (i : Nat) (s g' : Nat) (as : List Nat) (x : Nat) (
     (h : g.thr[i]? = some (.joinIn s g' as (x :: todo))) :
     step g (.call i) =
       { g with st := if joinOk g (s, g') x then joinOne g.st (s, g') x else g.st,
-               locks := if joinOk g (s, g') x then set g.locks (s, g') (asOf g (s, g'), accOf g (s, g') ++ [x]) else g.locks,
+               locks := if joinOk g (s, g') x then set g.locks (s, g') (i, asOf g (s, g'), accOf g (s, g') ++ [x]) else g.locks,
                thr := g.thr.set i (.joinIn s g' as todo) } := by
   simp only [step, h, needsKey, Option.any_none, Bool.false_eq_true, ↓reduceIte, joinOk]
   rfl
@@ -372,33 +372,33 @@ theorem envV_call (g : G) (pc : Pc) (hb : ¬ blocked g pc) (a : Nat) :
 
 /-! ### the three regions inside `join_scoped`'s entry lock -/
 
-theorem accOf_set (locks : List (Key × (List Nat × List Nat))) (k : Key) (v : List Nat × List Nat) (k' : Key) :
-    ((get (set locks k v) k').map (·.2)).getD [] = if k' = k then v.2 else ((get locks k').map (·.2)).getD [] := by
+theorem accOf_set (locks : List (Key × (Nat × List Nat × List Nat))) (k : Key) (v : Nat × List Nat × List Nat) (k' : Key) :
+    ((get (set locks k v) k').map (·.2.2)).getD [] = if k' = k then v.2.2 else ((get locks k').map (·.2.2)).getD [] := by
   rw [get_set]; by_cases e : k' = k <;> simp [e]
 
-theorem asOf_set (locks : List (Key × (List Nat × List Nat))) (k : Key) (v : List Nat × List Nat) (k' : Key) :
-    ((get (set locks k v) k').map (·.1)).getD [] = if k' = k then v.1 else ((get locks k').map (·.1)).getD [] := by
+theorem asOf_set (locks : List (Key × (Nat × List Nat × List Nat))) (k : Key) (v : Nat × List Nat × List Nat) (k' : Key) :
+    ((get (set locks k v) k').map (·.2.1)).getD [] = if k' = k then v.2.1 else ((get locks k').map (·.2.1)).getD [] := by
   rw [get_set]; by_cases e : k' = k <;> simp [e]
 
-theorem accOf_erase (locks : List (Key × (List Nat × List Nat))) (k k' : Key) :
-    ((get (erase locks k) k').map (·.2)).getD [] = if k' = k then [] else ((get locks k').map (·.2)).getD [] := by
+theorem accOf_erase (locks : List (Key × (Nat × List Nat × List Nat))) (k k' : Key) :
+    ((get (erase locks k) k').map (·.2.2)).getD [] = if k' = k then [] else ((get locks k').map (·.2.2)).getD [] := by
   rw [get_erase]; by_cases e : k' = k <;> simp [e]
 
-theorem asOf_erase (locks : List (Key × (List Nat × List Nat))) (k k' : Key) :
-    ((get (erase locks k) k').map (·.1)).getD [] = if k' = k then [] else ((get locks k').map (·.1)).getD [] := by
+theorem asOf_erase (locks : List (Key × (Nat × List Nat × List Nat))) (k k' : Key) :
+    ((get (erase locks k) k').map (·.2.1)).getD [] = if k' = k then [] else ((get locks k').map (·.2.1)).getD [] := by
   rw [get_erase]; by_cases e : k' = k <;> simp [e]
 
 /-- `joinLock` -/
-theorem envV_lock (g : G) (k : Key) (as : List Nat) (thr' : List Pc) (hu : locked g k = false) (a : Nat) :
-    EnvV a (gView g) (gView { g with st := touchGroup g.st k, locks := set g.locks k (as, []), thr := thr' }) := by
-  have hacc : accOf { g with st := touchGroup g.st k, locks := set g.locks k (as, []), thr := thr' } = accOf g := by
+theorem envV_lock (g : G) (k : Key) (i : Nat) (as : List Nat) (thr' : List Pc) (hu : locked g k = false) (a : Nat) :
+    EnvV a (gView g) (gView { g with st := touchGroup g.st k, locks := set g.locks k (i, as, []), thr := thr' }) := by
+  have hacc : accOf { g with st := touchGroup g.st k, locks := set g.locks k (i, as, []), thr := thr' } = accOf g := by
     funext k'
-    show ((get (set g.locks k (as, [])) k').map (·.2)).getD [] = accOf g k'
+    show ((get (set g.locks k (i, as, [])) k').map (·.2.2)).getD [] = accOf g k'
     rw [accOf_set]
     by_cases e : k' = k
     · rw [if_pos e, e, not_locked_acc hu]
     · rw [if_neg e]; rfl
-  show EnvV a (gView g) (stView (touchGroup g.st k) (accOf { g with st := touchGroup g.st k, locks := set g.locks k (as, []), thr := thr' }))
+  show EnvV a (gView g) (stView (touchGroup g.st k) (accOf { g with st := touchGroup g.st k, locks := set g.locks k (i, as, []), thr := thr' }))
   rw [hacc]
   exact envV_of_vtrans (vtrans_lift (accOf g) (trans_of_same (same_touchGroup g.st k)) (by simp))
     (wbv_of_wb _ (wb_empty a g.st)) id
@@ -430,15 +430,15 @@ theorem joinOne_relWmon (st : State) (k : Key) (x y : Nat) : relWmon (joinOne st
 def joinOneEff (k : Key) (x : Nat) : Eff := { addM := fun k' y => k' = k ∧ y = x }
 
 /-- `joinOne` for an actor that passes the status re-check -/
-theorem envV_one (g : G) (k : Key) (x : Nat) (thr' : List Pc) (hx : x ∉ g.st.dead) (a : Nat) :
+theorem envV_one (g : G) (k : Key) (i x : Nat) (thr' : List Pc) (hx : x ∉ g.st.dead) (a : Nat) :
     EnvV a (gView g)
-      (gView { g with st := joinOne g.st k x, locks := set g.locks k (asOf g k, accOf g k ++ [x]), thr := thr' }) := by
+      (gView { g with st := joinOne g.st k x, locks := set g.locks k (i, asOf g k, accOf g k ++ [x]), thr := thr' }) := by
   have t : VTrans (gView g)
-      (gView { g with st := joinOne g.st k x, locks := set g.locks k (asOf g k, accOf g k ++ [x]), thr := thr' })
+      (gView { g with st := joinOne g.st k x, locks := set g.locks k (i, asOf g k, accOf g k ++ [x]), thr := thr' })
       (joinOneEff k x) := by
     refine ⟨?_, ?_, ?_, ?_, ?_, ?_, fun _ h => h⟩
     · intro k' y
-      show (y ∈ membersOf g.st k' ∨ y ∈ ((get (set g.locks k (asOf g k, accOf g k ++ [x])) k').map (·.2)).getD []) ↔
+      show (y ∈ membersOf g.st k' ∨ y ∈ ((get (set g.locks k (i, asOf g k, accOf g k ++ [x])) k').map (·.2.2)).getD []) ↔
         ((y ∈ membersOf g.st k' ∨ y ∈ accOf g k') ∧ ¬ False) ∨ (k' = k ∧ y = x)
       rw [accOf_set]
       by_cases e : k' = k
@@ -511,7 +511,7 @@ theorem envV_commit (g : G) (k : Key) (thr' : List Pc) (ch : List Pending) (hl :
       (gView { g with st := joinCommit g.st k (joinedOf g k), locks := erase g.locks k, thr := thr', changes := ch }) {} := by
     refine ⟨?_, ?_, ?_, ?_, ?_, ?_, ?_⟩
     · intro k' y
-      show (y ∈ membersOf (joinCommit g.st k (joinedOf g k)) k' ∨ y ∈ ((get (erase g.locks k) k').map (·.2)).getD []) ↔
+      show (y ∈ membersOf (joinCommit g.st k (joinedOf g k)) k' ∨ y ∈ ((get (erase g.locks k) k').map (·.2.2)).getD []) ↔
         ((y ∈ membersOf g.st k' ∨ y ∈ accOf g k') ∧ ¬ False) ∨ False
       rw [joinCommit_members, accOf_erase]
       by_cases e : k' = k
@@ -567,8 +567,8 @@ theorem lockInv_step {g : G} (h : LockInv g) (t : Tid) : LockInv (step g t) := b
         · obtain ⟨s, g', as, rfl⟩ := c1
           rw [step_call_lock g i s g' as hp hb]
           intro k y hy
-          have hy' : y ∈ ((get (set g.locks (s, g') (as, [])) k).map (·.2)).getD [] := hy
-          show y ∈ ((get (set g.locks (s, g') (as, [])) k).map (·.1)).getD []
+          have hy' : y ∈ ((get (set g.locks (s, g') (i, as, [])) k).map (·.2.2)).getD [] := hy
+          show y ∈ ((get (set g.locks (s, g') (i, as, [])) k).map (·.2.1)).getD []
           rw [accOf_set] at hy'; rw [asOf_set]
           by_cases e : k = (s, g')
           · rw [if_pos e] at hy'; cases hy'
@@ -579,8 +579,8 @@ theorem lockInv_step {g : G} (h : LockInv g) (t : Tid) : LockInv (step g t) := b
             | nil =>
               rw [step_call_commit g i s g' as hp]
               intro k y hy
-              have hy' : y ∈ ((get (erase g.locks (s, g')) k).map (·.2)).getD [] := hy
-              show y ∈ ((get (erase g.locks (s, g')) k).map (·.1)).getD []
+              have hy' : y ∈ ((get (erase g.locks (s, g')) k).map (·.2.2)).getD [] := hy
+              show y ∈ ((get (erase g.locks (s, g')) k).map (·.2.1)).getD []
               rw [accOf_erase] at hy'; rw [asOf_erase]
               by_cases e : k = (s, g')
               · rw [if_pos e] at hy'; cases hy'
@@ -590,8 +590,8 @@ theorem lockInv_step {g : G} (h : LockInv g) (t : Tid) : LockInv (step g t) := b
               by_cases ok : joinOk g (s, g') x = true
               · simp only [ok, ↓reduceIte]
                 intro k y hy
-                have hy' : y ∈ ((get (set g.locks (s, g') (asOf g (s, g'), accOf g (s, g') ++ [x])) k).map (·.2)).getD [] := hy
-                show y ∈ ((get (set g.locks (s, g') (asOf g (s, g'), accOf g (s, g') ++ [x])) k).map (·.1)).getD []
+                have hy' : y ∈ ((get (set g.locks (s, g') (i, asOf g (s, g'), accOf g (s, g') ++ [x])) k).map (·.2.2)).getD [] := hy
+                show y ∈ ((get (set g.locks (s, g') (i, asOf g (s, g'), accOf g (s, g') ++ [x])) k).map (·.2.1)).getD []
                 rw [accOf_set] at hy'; rw [asOf_set]
                 by_cases e : k = (s, g')
                 · rw [if_pos e] at hy' ⊢
@@ -632,7 +632,7 @@ theorem allInv_step {g : G} (h : AllInv g) (hl : LockInv g) (t : Tid) : AllInv (
         · obtain ⟨s, g', as, rfl⟩ := c1
           rw [step_call_lock g i s g' as hp hb]
           intro a
-          exact vinv_env (envV_lock g (s, g') as _ (unlocked_of_needs hb rfl) a) (h a)
+          exact vinv_env (envV_lock g (s, g') i as _ (unlocked_of_needs hb rfl) a) (h a)
         · by_cases c2 : ∃ s g' as todo, pc = .joinIn s g' as todo
           · obtain ⟨s, g', as, todo, rfl⟩ := c2
             cases todo with
@@ -649,7 +649,7 @@ theorem allInv_step {g : G} (h : AllInv g) (hl : LockInv g) (t : Tid) : AllInv (
                   unfold joinOk at ok
                   simp only [Bool.and_eq_true] at ok
                   exact alive_iff.mp ok.1
-                exact vinv_env (envV_one g (s, g') x _ hx a) (h a)
+                exact vinv_env (envV_one g (s, g') i x _ hx a) (h a)
               · simp only [ok, Bool.false_eq_true, ↓reduceIte]
                 exact h
           · have h1 : ∀ s g' as, pc ≠ .joinFiltered s g' as := fun s g' as e => c1 ⟨s, g', as, e⟩
